@@ -243,9 +243,16 @@ func c04WritesCounter(cs c04Case) bool {
 		op := ops[ix]
 		switch op.kind {
 		case "for":
+			if counters[op.v] {
+				return true // a second loop over the same counter re-initialises it
+			}
 			counters[op.v] = true
 		case "forfrom":
+			if counters["i"] {
+				return true
+			}
 			counters["i"] = true
+			counters[op.v] = true // the bound is read from this variable in every pass
 		case "assign", "copy":
 			if counters[op.v] {
 				return true
